@@ -22,14 +22,14 @@ Open Scope Z_scope.
    given results, and the server loop has ended (after the client's disconnect) with exactly
    the given callback log and application state *)
 Theorem C06_ends_in_meaning :
-  forall A app_put app_get decodable dec_crash complete cpl_crash miu_cs miu_sc max_acc
+  forall A app_put app_get decodable complete miu_cs miu_sc max_acc
          (C : chan_ops) (Cok : chan_ok C) a ops results a' log,
-  snep_ends_in A app_put app_get decodable dec_crash complete cpl_crash miu_cs miu_sc max_acc C Cok a ops results a' log <->
+  snep_ends_in A app_put app_get decodable complete miu_cs miu_sc max_acc C Cok a ops results a' log <->
   exists n, forall sch g,
-    snep_run A app_put app_get decodable dec_crash complete cpl_crash C miu_cs miu_sc max_acc sch
+    snep_run A app_put app_get decodable complete C miu_cs miu_sc max_acc sch
       (snep_init A C miu_cs a ops) = Some g ->
     exists sch' g', (length sch + length sch' = n)%nat /\
-      snep_run A app_put app_get decodable dec_crash complete cpl_crash C miu_cs miu_sc max_acc sch' g = Some g' /\
+      snep_run A app_put app_get decodable complete C miu_cs miu_sc max_acc sch' g = Some g' /\
       g_c g' = {| c_cur := CIdle; c_pending := []; c_results := results |} /\
       g_s g' = {| sv_st := SClosed; sv_app := a'; sv_log := log |} /\
       qlist C Cok (g_cs g') = [] /\ qlist C Cok (g_sc g') = [] /\ g_err g' = false.
@@ -39,23 +39,23 @@ Print Assumptions C06_ends_in_meaning.
 (* --- put: the server application receives exactly the message, exactly once; the client gets
    Success; for every message size and all MIUs (the proof needs only MIU >= 6; LLCP gives >= 128) *)
 Theorem C06_snep_put_exact :
-  forall A app_put app_get decodable dec_crash complete cpl_crash miu_cs miu_sc max_acc,
+  forall A app_put app_get decodable complete miu_cs miu_sc max_acc,
   6 <= miu_cs -> 6 <= miu_sc ->
   forall (C : chan_ops) (Cok : chan_ok C) a msg,
   len msg <= 4294967295 -> len msg <= max_acc -> decodable msg = true -> snd (app_put a msg) = 129 ->
-  snep_ends_in A app_put app_get decodable dec_crash complete cpl_crash miu_cs miu_sc max_acc C Cok
+  snep_ends_in A app_put app_get decodable complete miu_cs miu_sc max_acc C Cok
     a [OpPut msg] [RBool true] (fst (app_put a msg)) [CallPut msg].
 Proof. exact snep_put_exact. Qed.
 Print Assumptions C06_snep_put_exact.
 
 (* --- get: request and response both fragmented arbitrarily *)
 Theorem C06_snep_get_exact :
-  forall A app_put app_get decodable dec_crash complete cpl_crash miu_cs miu_sc max_acc,
+  forall A app_put app_get decodable complete miu_cs miu_sc max_acc,
   6 <= miu_cs -> 6 <= miu_sc ->
   forall (C : chan_ops) (Cok : chan_ok C) a octets acc rsp,
   0 <= acc <= 4294967295 -> 4 + len octets <= 4294967295 -> 4 + len octets <= max_acc ->
   decodable octets = true -> snd (app_get a octets) = GMsg rsp -> len rsp <= acc ->
-  snep_ends_in A app_put app_get decodable dec_crash complete cpl_crash miu_cs miu_sc max_acc C Cok
+  snep_ends_in A app_put app_get decodable complete miu_cs miu_sc max_acc C Cok
     a [OpGet octets acc] [ROctets rsp] (fst (app_get a octets)) [CallGet octets].
 Proof. exact snep_get_exact. Qed.
 Print Assumptions C06_snep_get_exact.
@@ -64,33 +64,33 @@ Print Assumptions C06_snep_get_exact.
    raises SnepError(0xFF), or - when it was waiting for Continue - returns False / None), the
    callback is never invoked, the application state is untouched *)
 Theorem C06_snep_excess_refused :
-  forall A app_put app_get decodable dec_crash complete cpl_crash miu_cs miu_sc max_acc,
+  forall A app_put app_get decodable complete miu_cs miu_sc max_acc,
   6 <= miu_cs -> 6 <= miu_sc ->
   forall (C : chan_ops) (Cok : chan_ok C) a msg,
   len msg <= 4294967295 -> max_acc < len msg ->
-  snep_ends_in A app_put app_get decodable dec_crash complete cpl_crash miu_cs miu_sc max_acc C Cok
+  snep_ends_in A app_put app_get decodable complete miu_cs miu_sc max_acc C Cok
     a [OpPut msg] [if 6 + len msg <=? miu_cs then RSnepError 255 else RBool false] a [].
 Proof. exact snep_excess_refused_put. Qed.
 Print Assumptions C06_snep_excess_refused.
 
 Theorem C06_snep_excess_refused_get :
-  forall A app_put app_get decodable dec_crash complete cpl_crash miu_cs miu_sc max_acc,
+  forall A app_put app_get decodable complete miu_cs miu_sc max_acc,
   6 <= miu_cs -> 6 <= miu_sc ->
   forall (C : chan_ops) (Cok : chan_ok C) a octets acc,
   0 <= acc <= 4294967295 -> 4 + len octets <= 4294967295 -> max_acc < 4 + len octets ->
-  snep_ends_in A app_put app_get decodable dec_crash complete cpl_crash miu_cs miu_sc max_acc C Cok
+  snep_ends_in A app_put app_get decodable complete miu_cs miu_sc max_acc C Cok
     a [OpGet octets acc] [if 10 + len octets <=? miu_cs then RSnepError 255 else RNone] a [].
 Proof. exact snep_excess_refused_get. Qed.
 Print Assumptions C06_snep_excess_refused_get.
 
 (* --- a response longer than the client's acceptable length: ExcessData, nothing of it returned *)
 Theorem C06_snep_excess_response_refused :
-  forall A app_put app_get decodable dec_crash complete cpl_crash miu_cs miu_sc max_acc,
+  forall A app_put app_get decodable complete miu_cs miu_sc max_acc,
   6 <= miu_cs -> 6 <= miu_sc ->
   forall (C : chan_ops) (Cok : chan_ok C) a octets acc rsp,
   0 <= acc <= 4294967295 -> 4 + len octets <= 4294967295 -> 4 + len octets <= max_acc ->
   decodable octets = true -> snd (app_get a octets) = GMsg rsp -> acc < len rsp ->
-  snep_ends_in A app_put app_get decodable dec_crash complete cpl_crash miu_cs miu_sc max_acc C Cok
+  snep_ends_in A app_put app_get decodable complete miu_cs miu_sc max_acc C Cok
     a [OpGet octets acc] [RSnepError 193] (fst (app_get a octets)) [CallGet octets].
 Proof. exact snep_excess_refused_response. Qed.
 Print Assumptions C06_snep_excess_response_refused.
@@ -99,11 +99,11 @@ Print Assumptions C06_snep_excess_response_refused.
    and in order, refused ones not at all); session_ok / session_results / session_log are the
    recursive reading of the above over the list of operations *)
 Theorem C06_snep_session_exact :
-  forall A app_put app_get decodable dec_crash complete cpl_crash miu_cs miu_sc max_acc,
+  forall A app_put app_get decodable complete miu_cs miu_sc max_acc,
   6 <= miu_cs -> 6 <= miu_sc ->
   forall (C : chan_ops) (Cok : chan_ok C) a ops,
   session_ok A app_put app_get decodable max_acc a ops ->
-  snep_ends_in A app_put app_get decodable dec_crash complete cpl_crash miu_cs miu_sc max_acc C Cok a ops
+  snep_ends_in A app_put app_get decodable complete miu_cs miu_sc max_acc C Cok a ops
     (session_results A app_put app_get miu_cs max_acc a ops) (session_app A app_put app_get max_acc a ops)
     (session_log A app_put app_get max_acc a ops).
 Proof. exact snep_session_exact. Qed.
@@ -111,8 +111,8 @@ Print Assumptions C06_snep_session_exact.
 
 (* --- the connection breaks while a put request is being reassembled: no callback for the part *)
 Theorem C06_snep_broken_transfer_no_callback :
-  forall A app_put app_get decodable dec_crash miu_sc max_acc a log L part, decodable part = false ->
-  let r := snep_sys_react A app_put app_get decodable dec_crash miu_sc max_acc
+  forall A app_put app_get decodable miu_sc max_acc a log L part, decodable part = false ->
+  let r := snep_sys_react A app_put app_get decodable miu_sc max_acc
              {| sv_st := SMore ([16; 2; L / 16777216 mod 256; L / 65536 mod 256; L / 256 mod 256; L mod 256] ++ part) L;
                 sv_app := a; sv_log := log |} IClosed in
   sv_log (fst r) = log /\ sv_app (fst r) = a /\ snd r = [].
@@ -123,21 +123,21 @@ Print Assumptions C06_snep_broken_transfer_no_callback.
    both octet for octet, for all sizes and MIUs >= 1; premise on the decoder: no non-empty proper
    prefix of a complete message is complete (prefix_free) *)
 Theorem C06_handover_exact :
-  forall A app_ho complete cpl_crash is_hr miu_cs miu_sc, 1 <= miu_cs -> 1 <= miu_sc ->
+  forall A app_ho complete is_hr miu_cs miu_sc, 1 <= miu_cs -> 1 <= miu_sc ->
   forall (C : chan_ops) (Cok : chan_ok C) a req,
-  req <> [] -> prefix_free complete cpl_crash req -> complete req = true -> is_hr req = true ->
-  snd (app_ho a req) <> [] -> prefix_free complete cpl_crash (snd (app_ho a req)) ->
+  req <> [] -> prefix_free complete req -> complete req = true -> is_hr req = true ->
+  snd (app_ho a req) <> [] -> prefix_free complete (snd (app_ho a req)) ->
   complete (snd (app_ho a req)) = true ->
-  ho_ends_in A app_ho complete cpl_crash is_hr miu_cs miu_sc C Cok a
+  ho_ends_in A app_ho complete is_hr miu_cs miu_sc C Cok a
     [OpHo req] [ROctets (snd (app_ho a req))] (fst (app_ho a req)) [CallHo req].
 Proof. exact handover_exact. Qed.
 Print Assumptions C06_handover_exact.
 
 Theorem C06_handover_session_exact :
-  forall A app_ho complete cpl_crash is_hr miu_cs miu_sc, 1 <= miu_cs -> 1 <= miu_sc ->
+  forall A app_ho complete is_hr miu_cs miu_sc, 1 <= miu_cs -> 1 <= miu_sc ->
   forall (C : chan_ops) (Cok : chan_ok C) a ops,
-  ho_session_ok A app_ho complete cpl_crash is_hr a ops ->
-  ho_ends_in A app_ho complete cpl_crash is_hr miu_cs miu_sc C Cok a ops
+  ho_session_ok A app_ho complete is_hr a ops ->
+  ho_ends_in A app_ho complete is_hr miu_cs miu_sc C Cok a ops
     (ho_results A app_ho a ops) (ho_app A app_ho a ops) (ho_log A app_ho a ops).
 Proof. exact handover_session_exact. Qed.
 Print Assumptions C06_handover_session_exact.
@@ -145,8 +145,8 @@ Print Assumptions C06_handover_session_exact.
 (* the code before the repair fixes/c06-handover-server-request-reset.diff (reset = false) does
    not have this property: the second request on a connection is not delivered intact *)
 Theorem C06_handover_unrepaired_refuted :
-  let g := run_cp csess (hsrv nat) (cl_react w_complete (fun _ => false) 128)
-             (ho_sys_react nat w_app w_complete (fun _ => false) (fun _ => true) 128 false) list_chan 128 128 20
+  let g := run_cp csess (hsrv nat) (cl_react w_complete 128)
+             (ho_sys_react nat w_app w_complete (fun _ => true) 128 false) list_chan 128 128 20
              (ho_init nat list_chan 128 O [OpHo [1; 2; 3]; OpHo [4; 5; 6]]) in
   hv_log (g_s g) = [CallHo [1; 2; 3]; CallHo [1; 2; 3; 4; 5; 6]] /\
   hv_log (g_s g) <> [CallHo [1; 2; 3]; CallHo [4; 5; 6]].
@@ -159,11 +159,11 @@ Proof. exact list_chan_ok_ex. Qed.
 Print Assumptions C06_list_channel_ok.
 
 Theorem C06_snep_executable_run_ends :
-  forall A app_put app_get decodable dec_crash complete cpl_crash miu_cs miu_sc max_acc,
+  forall A app_put app_get decodable complete miu_cs miu_sc max_acc,
   6 <= miu_cs -> 6 <= miu_sc -> forall a ops, session_ok A app_put app_get decodable max_acc a ops ->
   exists n, forall k, (n <= k)%nat ->
-    run_cp csess (srv A) (cl_react complete cpl_crash miu_cs)
-      (snep_sys_react A app_put app_get decodable dec_crash miu_sc max_acc) list_chan miu_cs miu_sc k
+    run_cp csess (srv A) (cl_react complete miu_cs)
+      (snep_sys_react A app_put app_get decodable miu_sc max_acc) list_chan miu_cs miu_sc k
       (snep_init A list_chan miu_cs a ops) =
     final A (session_results A app_put app_get miu_cs max_acc a ops) (session_app A app_put app_get max_acc a ops)
       (session_log A app_put app_get max_acc a ops).
@@ -177,12 +177,12 @@ Example C06_nonvacuous :
   let put := fun (a : nat) (_ : list Z) => (S a, 129) in
   let get := fun (a : nat) (_ : list Z) => (a, GCode 224) in
   (6 <= 128 /\ len msg <= 4294967295 /\ len msg <= 300 /\ snd (put O msg) = 129) /\
-  (let g := run_cp csess (srv nat) (cl_react (fun _ => false) (fun _ => false) 128)
-              (snep_sys_react nat put get (fun _ => true) (fun _ => false) 128 300) list_chan 128 128 10
+  (let g := run_cp csess (srv nat) (cl_react (fun _ => false) 128)
+              (snep_sys_react nat put get (fun _ => true) 128 300) list_chan 128 128 10
               (snep_init nat list_chan 128 O [OpPut msg]) in
    c_results (g_c g) = [RBool true] /\ sv_log (g_s g) = [CallPut msg] /\ sv_app (g_s g) = 1%nat /\
    sv_st (g_s g) = SClosed /\ g_cs g = [] /\ g_sc g = [] /\ g_err g = false) /\
-  prefix_free (fun l => list_eqb l msg) (fun _ => false) msg.
+  prefix_free (fun l => list_eqb l msg) msg.
 Proof.
   split; [|split].
   - vm_compute. repeat split; discriminate.
